@@ -61,7 +61,7 @@ func staticSetup() *staticEnv {
 		}
 	}
 	for rel, m := range map[string]string{"root/a.txt": "MARK-A-TXT", "root/a.css": "MARK-A-CSS", "root/index.html": "MARK-INDEX",
-		"root/sub/b.js": "MARK-B-JS"} {
+		"root/sub/b.js": "MARK-B-JS", "root/c.mjs": "MARK-C-MJS"} {
 		write(rel, m)
 		e.markers[strings.TrimPrefix(rel, "root/")] = m
 	}
